@@ -24,7 +24,7 @@ import (
 var withCorpus bool
 
 type corpus struct {
-	Files, FileNames, Exprs, Globs []string
+	Files, FileNames, Exprs, Globs, All, AllNames []string
 }
 
 var corpusCache *corpus
@@ -71,6 +71,16 @@ func buildCorpus() *corpus {
 			}
 		}
 	}
+	// every YAML file under testdata (for the decoders)
+	filepath.Walk(filepath.Join(repoDir, "testdata"), func(p string, info os.FileInfo, err error) error {
+		if err == nil && !info.IsDir() && (strings.HasSuffix(p, ".yaml") || strings.HasSuffix(p, ".yml")) && info.Size() < 20000 {
+			if b, err := os.ReadFile(p); err == nil {
+				c.All = append(c.All, string(b))
+				c.AllNames = append(c.AllNames, strings.TrimPrefix(p, repoDir+"/"))
+			}
+		}
+		return nil
+	})
 	corpusCache = c
 	return c
 }
@@ -90,7 +100,9 @@ func corpusSource() []byte {
 		lst("verifCorpusFiles", c.Files)
 		lst("verifCorpusExprs", c.Exprs)
 		lst("verifCorpusGlobs", c.Globs)
+		lst("verifCorpusAll", c.All)
 	} else {
+		lst("verifCorpusAll", nil)
 		lst("verifCorpusFiles", nil)
 		lst("verifCorpusExprs", nil)
 		lst("verifCorpusGlobs", nil)
@@ -117,8 +129,8 @@ func cmdSelftest(args []string) {
 	}
 	var parts []part
 	bad := 0
-	names := map[string][]string{"HarnessSelftestFiles": c.FileNames, "HarnessSelftestExprs": c.Exprs, "HarnessSelftestGlobs": c.Globs}
-	for _, h := range []string{"HarnessSelftestFiles", "HarnessSelftestExprs", "HarnessSelftestGlobs"} {
+	names := map[string][]string{"HarnessSelftestFiles": c.FileNames, "HarnessSelftestExprs": c.Exprs, "HarnessSelftestGlobs": c.Globs, "HarnessSelftestDecode": c.AllNames}
+	for _, h := range []string{"HarnessSelftestFiles", "HarnessSelftestExprs", "HarnessSelftestGlobs", "HarnessSelftestDecode"} {
 		cfg := &interp.Config{Prog: prog, Pkg: pkg, Entry: h, NoPanic: true, MaxSamples: 1}
 		res := interp.Explore(cfg)
 		for _, ev := range res.Events {
